@@ -343,7 +343,9 @@ def run_check(prop: Prop, tier: str, seed: int) -> int:
             impl_out.append(o)
             if any(k in o for k in ("RealTimeLimit", "TimeLimit(", "Spin(", "Deadlock(")):
                 stuck += 1
-        except Exception as e:  # harness bug or unexpected exception kind
+        except (KeyboardInterrupt, SystemExit):
+            raise
+        except BaseException as e:  # noqa: BLE001 - harness bug, unexpected exception kind, or a simulation verdict
             impl_out.append("harness-exc " + type(e).__name__ + ": " + str(e)[:100])
             if type(e).__name__ in ("RealTimeLimit", "TimeLimit", "Spin", "Deadlock"):
                 stuck += 1
@@ -378,7 +380,9 @@ def run_check(prop: Prop, tier: str, seed: int) -> int:
     # property-specific extra checks (both tiers); they return concrete violations on the real code
     try:
         violations += prop.extra_checks(rng, tier, ev) or []
-    except Exception as e:
+    except (KeyboardInterrupt, SystemExit):
+        raise
+    except BaseException as e:  # noqa: BLE001
         broken.append(("extra-checks", traceback.format_exc()[-800:]))
 
     # 5 failing-input search: always in thorough (cross-check), and whenever something broke;
@@ -390,7 +394,9 @@ def run_check(prop: Prop, tier: str, seed: int) -> int:
         oracle_runs += 1
         try:
             v = prop.oracle(l)
-        except Exception as e:
+        except (KeyboardInterrupt, SystemExit):
+            raise
+        except BaseException as e:  # noqa: BLE001
             v = {"key": "oracle-exception", "what": f"oracle raised {type(e).__name__}: {e}", "case": l}
         if v:
             v.setdefault("case", l)
@@ -410,7 +416,9 @@ def run_check(prop: Prop, tier: str, seed: int) -> int:
             oracle_runs += 1
             try:
                 v = prop.oracle(l)
-            except Exception as e:
+            except (KeyboardInterrupt, SystemExit):
+                raise
+            except BaseException as e:  # noqa: BLE001
                 v = {"key": "oracle-exception", "what": f"oracle raised {type(e).__name__}: {e}", "case": l}
             if v:
                 v.setdefault("case", l)
@@ -431,7 +439,9 @@ def run_check(prop: Prop, tier: str, seed: int) -> int:
             oracle_runs += 1
             try:
                 v = prop.oracle(l)
-            except Exception as e:
+            except (KeyboardInterrupt, SystemExit):
+                raise
+            except BaseException as e:  # noqa: BLE001
                 v = {"key": "oracle-exception", "what": f"oracle raised {type(e).__name__}: {e}", "case": l}
             if v:
                 v.setdefault("case", l)
